@@ -79,3 +79,19 @@ Fixpoint dunits_eqb (a : list dunit) (b : list (Z * str * list str * option Z)) 
 
 Definition docx_case (c : docx * list (Z * str * list str * option Z)) : bool :=
   dunits_eqb (docx_units (fst c)) (snd c).
+
+From S2T Require Import C03.Sect.
+
+Fixpoint obss_eqb (a b : list obs) : bool :=
+  match a, b with
+  | [], [] => true
+  | (n, t, p, l) :: a', (n', t', p', l') :: b' =>
+      Z.eqb n n' && str_eqb t t' && strs_eqb p p' && optz_eqb l l' && obss_eqb a' b'
+  | _, _ => false
+  end.
+
+(* DocContent / OdtContent instances: (record, [(unit_number, text, heading_path, heading_level)]) *)
+Definition doc_case (c : doc * list obs) : bool := obss_eqb (doc_units (fst c)) (snd c).
+Definition odt_case (c : odt * list obs) : bool := obss_eqb (odt_units (fst c)) (snd c).
+(* str.split() against CPython *)
+Definition split_case (c : str * list str) : bool := strs_eqb (split_ws (fst c)) (snd c).
